@@ -21,6 +21,12 @@ func main() {
 		os.Exit(runner.ReplayMain(os.Args[2], quiet))
 	case "check":
 		os.Exit(runner.CheckMain(os.Args[2], os.Args[3]))
+	case "selftest":
+		n := 30
+		if len(os.Args) > 3 {
+			fmt.Sscanf(os.Args[3], "%d", &n)
+		}
+		os.Exit(runner.SelfTestMain(os.Args[2], n))
 	case "genstats":
 		runs, blocks := 6, 30
 		if len(os.Args) > 3 {
